@@ -38,7 +38,7 @@ func init() {
 func c17Gen(tier string, r *rand.Rand) []Case {
 	modes := []string{"honest", "different-data", "scaled", "neg-both", "neg-one", "id-key1", "id-key2", "id-proofs", "id-proof1", "plusT1", "plusT2",
 		"malformed1", "short1", "long2", "other-key", "same-key", "neg-key", "swapped-proofs", "bitflip1", "flags1", "xgep2",
-		"same-key-same-malformed", "same-key-same-plusT", "same-key-same-offcurve", "same-key-same-valid", "same-key-two-objects-same-plusT"}
+		"plusT-minusT", "plusT-plusT", "same-key-same-malformed", "same-key-same-plusT", "same-key-same-offcurve", "same-key-same-valid", "same-key-two-objects-same-plusT"}
 	var cs []Case
 	reps := 1
 	if tier == "thorough" {
@@ -155,6 +155,13 @@ func c17Run(c Case) (Result, error) {
 		p1 = inf
 	case "plusT1":
 		p1 = e1Compress(e1Add(P1, e1Torsion(rr)))
+	case "plusT-minusT":
+		// both proofs leave G1 by opposite cofactor components: their SUM is in G1, each one is not
+		T := e1SmallOrder(rr, 3)
+		p1, p2 = e1Compress(e1Add(P1, T)), e1Compress(e1Add(P2, e1Neg(T)))
+	case "plusT-plusT":
+		T := e1Torsion(rr)
+		p1, p2 = e1Compress(e1Add(P1, T)), e1Compress(e1Add(P2, T))
 	case "plusT2":
 		p2 = e1Compress(e1Add(P2, e1SmallOrder(rr, 3)))
 	case "malformed1":
